@@ -117,6 +117,10 @@ pub assume_specification [httpclient::get_bearer_token] (r: &HyperRequest) -> (t
 pub uninterp spec fn genuine_session(t: Token, k: CryptState, s: Session) -> bool;
 pub assume_specification [SessionCache::decode] (c: &SessionCache, t: Token, k: &CryptState, add: bool) -> (r: Result<Session, ApiAuthError>)
     ensures r is Ok ==> genuine_session(t, *k, r->Ok_0);
+/// ASSUMED (std): an Arc borrowed as a reference is a reference to its value
+pub assume_specification<'a, T, A> [<std::sync::Arc<T, A> as std::convert::AsRef<T>>::as_ref] (a: &'a std::sync::Arc<T, A>) -> (r: &'a T)
+            where A: std::alloc::Allocator, T: std::marker::MetaSized + ?Sized,
+    ensures r == &**a;
 pub uninterp spec fn auth_user(id: Arc<str>, role: Arc<Role>) -> AuthInfo;
 pub assume_specification [AuthInfo::user] (id: Arc<str>, role: Arc<Role>) -> (a: AuthInfo) ensures a == auth_user(id, role);
 
@@ -130,6 +134,7 @@ pub open spec fn stored_form(user_norm: Seq<char>, password_norm: Seq<char>, sal
 
 def build():
     U = Unit('c20_login', 'C20', 'login: only a verbatim configured user name with the password matching that user\'s stored hash, whose role exists and permits login; the session is for that user\'s role'.replace("\\'", ''))
+    U.feature('allocator_api', 'sized_hierarchy')
     prelude.hashmap(U)
     prelude.strings(U)
     prelude.string_eq(U)
